@@ -504,6 +504,8 @@ Record ==
                   LET y == an.symseq[k] IN
                   [s |-> y.s, lvl |-> y.lvl, n |-> y.n, pinned |-> Pinned(y), top |-> TopLevel(y),
                    pinNotReserved |-> Pinned(y) /\ y.n \notin nm.reserved,
+                   \* the marker the binding holds when the program has finished (-2: no initialiser writes it)
+                   val |-> IF Writers(y) = {} THEN -2 ELSE an.mark[Min(Writers(y))],
                    slot |-> nm.slot[y], num |-> NumNames[y], min |-> MinNames[y]]],
     free   |-> nm.free,
     coinc  |-> Coincidences,
